@@ -80,6 +80,7 @@ def c02(case, obs):
     alloc = _alloc_indices(case, obs)
     failed_jobs = set()
     prev_enabled = case['enabled']
+    started: dict = {}          # job -> announced next-run times it has been started for ("at most once per announced time")
     for i, (op, o) in enumerate(zip(case['ops'], obs)):
         pjobs = _prev_jobs(obs, i)
         ex = execs(o)
@@ -89,6 +90,9 @@ def c02(case, obs):
             if j in seen:
                 bad.append((i, f'job {j} started twice in one operation'))
             seen.add(j)
+            if ann in started.setdefault(j, set()):
+                bad.append((i, f'job {j} was started a second time for the announced next-run time {ann}'))
+            started[j].add(ann)
             if j >= 1000 or j in failed_jobs:
                 bad.append((i, f'a job whose creation failed was started (job/tag {j})'))
                 continue
